@@ -181,7 +181,8 @@ def handleDist : List Sx → Option String
   | [.atom "checkwf", p] => do
     let P ← parsePartition p
     if checkWF P then some "true"
-    else some ("false " ++ " ".intercalate ((failingClauses P).map fun x => s!"({x.1} {x.2})"))
+    else some ("false " ++ " ".intercalate (((failingClauses P).filter fun x => !nonWFClauses.contains x.2).map
+      fun x => s!"({x.1} {x.2})"))
   | [.atom "checkwfexec", p] => do
     let P ← parsePartition p
     if checkWFexec P then some "true"
